@@ -259,12 +259,27 @@ def draw_block(rng, style):
     return [rng.randrange(256) for _ in range(8)]
 
 
-def make_case(rng, form, dec, shape, stops, nrows, style='random'):
+def make_case(rng, form, dec, shape, stops, nrows, style='random', argform='int'):
     nk = nrows if shape in (2, 3) else 1
     nb = nrows if shape in (1, 3) else 1
     keys = [pack(draw_key(rng, form, style)) for _ in range(nk)]
     blocks = [pack(draw_block(rng, style)) for _ in range(nb)]
-    return {'form': form, 'dec': bool(dec), 'shape': shape, 'keys': keys, 'blocks': blocks, 'stops': [list(s) for s in stops]}
+    return {'form': form, 'dec': bool(dec), 'shape': shape, 'keys': keys, 'blocks': blocks, 'stops': [list(s) for s in stops],
+            'argform': argform}
+
+
+def stop_kwargs(B, stop, argform):
+    """keyword arguments of one call.  argform: 'int' plain python ints; 'enum' after_step as a member of Steps (at_round / at_des have
+    no enum: plain ints); 'numpy' numpy integers for all three (the code documents python ints and refuses these with TypeError)."""
+    d, r, s = stop
+    kw = {}
+    if d is not None:
+        kw['at_des'] = np.int64(d) if argform == 'numpy' else int(d)
+    if r is not None:
+        kw['at_round'] = np.int32(r) if argform == 'numpy' else int(r)
+    if s is not None:
+        kw['after_step'] = B.Steps(int(s)) if argform == 'enum' else (np.uint8(s) if argform == 'numpy' else int(s))
+    return kw
 
 
 def _snapshot_state(B):
@@ -331,7 +346,7 @@ class CipherKind(Kind):
             'form (8/16/24 key bytes, 128/256/384 round-key words) at least once per run, the four broadcasting shapes in rotation, '
             'defaults (None) of at_des / at_round / after_step, template-isolation sequences (a stop at steps 6/7/8 of round 15 followed '
             'by a complete operation), the stop points before the first key addition under every shape incl. single-row 2-D arrays, weak and '
-            'random keys; the SHAPE of every result is compared with the model (shape_ok) like its values; oracle: caller\'s arrays and the '
+            'random keys; at_des / at_round / after_step as plain ints, as Steps members and as numpy integers (the latter are refused with TypeError today); the SHAPE of every result is compared with the model (shape_ok) like its values; oracle: caller\'s arrays and the '
             'module state unmodified, uint8; '
             'non-trivial = always (every case holds at least one stop point)')
 
@@ -369,7 +384,17 @@ class CipherKind(Kind):
                         else:
                             nrows = 1 if shape == 0 else 3
                             style = ('random', 'weak', 'schedule' if form > 24 else 'random', 'random')[rep]
-                        yield make_case(rng, form, dec, shape, allstops[i:i + 8], nrows, style)
+                        # plain ints and Steps members in alternation (shifted from one pass to the next)
+                        yield make_case(rng, form, dec, shape, allstops[i:i + 8], nrows, style,
+                                        argform='enum' if (ci // 4 + fi + rep) % 2 else 'int')
+        # numpy integers as at_des / at_round / after_step: refused today (TypeError, the documentation says int); if a version
+        # accepts them, the results are compared like any other
+        for fi, form in enumerate(FORMS):
+            last = n_des(form) - 1
+            for dec in (False, True):
+                yield make_case(rng, form, dec, (fi + int(dec)) % 4, [(last, 15, 6), (0, 0, 7), (last, 3, 8), (None, None, 9), (0, 2, None),
+                                                                       (last, None, None), (None, None, None)],
+                                1 if (fi + int(dec)) % 4 == 0 else 2, argform='numpy')
 
     def run(self, case):
         import scared.des.base as B
@@ -390,15 +415,18 @@ class CipherKind(Kind):
             _restore_state(snap)        # the next case starts from the module as imported, whatever this one did to it
 
     def _calls(self, case, fn, karr, barr, k0, b0, shapes, rows, notes, snap):
+        import scared.des.base as B
+        argform = case.get('argform', 'int')
         for (d, r, s) in case['stops']:
-            kw = {}
-            if d is not None:
-                kw['at_des'] = d
-            if r is not None:
-                kw['at_round'] = r
-            if s is not None:
-                kw['after_step'] = s
-            out = fn(barr, karr, **kw)
+            kw = stop_kwargs(B, (d, r, s), argform)
+            try:
+                out = fn(barr, karr, **kw)
+            except TypeError:
+                if argform == 'numpy' and kw:      # numpy integers are refused (documented: int): nothing to compare for this stop
+                    rows.append(None)
+                    shapes.append(None)
+                    continue
+                raise
             if not (np.array_equal(karr, k0) and np.array_equal(barr, b0)):
                 notes.append(f'stop {(d, r, s)}: the caller\'s key or block array was modified')
                 karr, barr = k0.copy(), b0.copy()
@@ -413,8 +441,13 @@ class CipherKind(Kind):
         return {'rows': rows, 'shapes': shapes, 'notes': notes}
 
     def coq(self, case, obs):
+        rows, shapes = obs.get('rows', []), obs.get('shapes', [])
+        stops = case['stops']
+        if any(r is None for r in rows):          # stops refused because of the numpy-integer form of their arguments
+            keep = [i for i, r in enumerate(rows) if r is not None]
+            stops, rows, shapes = [stops[i] for i in keep], [rows[i] for i in keep], [shapes[i] for i in keep]
         return cipher_literal(case['dec'], case['form'], case['shape'] in (2, 3), case['keys'], case['shape'] in (1, 3), case['blocks'],
-                              case['stops'], obs.get('shapes', []), obs.get('rows', []))
+                              stops, shapes, rows)
 
     def oracle(self, case, obs):
         if 'raised' in obs:
@@ -427,7 +460,11 @@ class CipherKind(Kind):
         return ['des_cipher', f'des_cipher_{case["form"]}_{"dec" if case["dec"] else "enc"}']
 
     def features(self, case, obs):
-        return {'form': case['form'], 'mode': 'dec' if case['dec'] else 'enc', 'shape': SHAPES[case['shape']], 'stops': len(case['stops'])}
+        f = {'form': case['form'], 'mode': 'dec' if case['dec'] else 'enc', 'shape': SHAPES[case['shape']], 'stops': len(case['stops']),
+             'argform': case.get('argform', 'int')}
+        if case.get('argform') == 'numpy':
+            f['numpy_refused'] = sum(1 for r in obs.get('rows', []) if r is None)
+        return f
 
     def shrink(self, case):
         stops = case['stops']
@@ -782,7 +819,231 @@ class HistoryKind(Kind):
                 yield dict(case, calls=calls)
 
 
-KINDS = [SweepKind(), PrimKind(), CipherKind(), HistoryKind()]
+# --------------------------------------------------------------------------------------------- count boundaries
+
+COUNTS_BIG = (255, 256, 257, 1023, 1024, 1025, 4097, 65535, 65536, 65537, 70000)
+COUNTS_SMALL = (255, 256, 257, 1023, 1024, 1025, 4097)
+
+
+def make_runs(rng, total, d):
+    """run-length encoding of `total` rows drawn from d distinct ones: 3..7 runs, every distinct row used, a short last run"""
+    nruns = rng.randint(max(3, d), 7)
+    tail = rng.randint(1, 3)
+    cuts = sorted(rng.sample(range(1, total - tail), nruns - 2)) + [total - tail]
+    lens = [b - a for a, b in zip([0] + cuts, cuts + [total])]
+    idx = list(range(d)) + [rng.randrange(d) for _ in range(nruns - d)]
+    rng.shuffle(idx)
+    for i in range(1, len(idx)):                 # neighbouring runs differ
+        if idx[i] == idx[i - 1]:
+            idx[i] = (idx[i] + 1) % d
+    return [[i, n] for i, n in zip(idx, lens)]
+
+
+def export_rows(runs, sample, bad=None):
+    """row numbers exported to Coq: first and last occurrence of every distinct row, the last three rows, the sample, the first bad row"""
+    total = sum(n for _, n in runs)
+    want = set(i for i in sample if i < total) | {total - 1, total - 2, total - 3}
+    pos = 0
+    first, last = {}, {}
+    for i, n in runs:
+        first.setdefault(i, pos)
+        last[i] = pos + n - 1
+        pos += n
+    want |= set(first.values()) | set(last.values())
+    if bad is not None:
+        want.add(int(bad))
+    return sorted(w for w in want if 0 <= w < total)
+
+
+def run_index(runs):
+    return np.repeat(np.array([i for i, _ in runs]), np.array([n for _, n in runs]))
+
+
+class CountKind(Kind):
+    name = 'des_counts'
+    header = HDR
+    case_type = 'count_case'
+    check_fn = 'count_check'
+    explain_fn = 'count_expected'
+    shard = 3
+    rule = ('count boundaries of encrypt / decrypt: ONE call on 255/256/257, 1023/1024/1025, 4097, 65535/65536/65537, 70000 blocks and / or '
+            'keys (N blocks with one key, one block with N keys, N pairs) made of 2..4 distinct (key, block) pairs, run-length encoded and '
+            'expanded inside Coq; master and expanded key forms, early / middle / final stop points, int and enum arguments; the distinct '
+            'pairs are validated by the ordinary check, of the big result Coq sees the shape, the first / last occurrence of every distinct '
+            'pair, the last three rows and a sample of 40 rows; the Python side compares the WHOLE result with the per-pair rows by exact '
+            'equality; non-trivial = always')
+
+    STOPS = [(None, None, None), (0, 0, 0), (0, 0, 1), (0, 0, 2), (None, 15, 6), (0, 7, 3), (None, 0, 8), (0, 15, 9)]
+
+    def gen(self, rng, tier):
+        reps = 1 if tier == 'quick' else 3
+        k = 0
+        for rep in range(reps):
+            for total in COUNTS_BIG:
+                for shape in (1, 2, 3):
+                    form = FORMS[(k + rep) % 6] if total < 60000 else (8, 128, 24, 384, 16, 256)[(k + rep) % 6]
+                    dec = bool((k // 2 + rep) % 2)
+                    stop = self.STOPS[(k + 3 * rep) % len(self.STOPS)]
+                    d = 2 + (k + rep) % 3
+                    base = make_case(rng, form, dec, shape, [stop], d, argform='enum' if k % 3 == 1 else 'int')
+                    yield {'base': base, 'runs': make_runs(rng, total, d), 'sample': sorted(rng.sample(range(total), 40))}
+                    k += 1
+
+    def run(self, case):
+        import scared.des.base as B
+        base = case['base']
+        form, shape = base['form'], base['shape']
+        keys = np.array([unpack(x, form) for x in base['keys']], dtype='uint8')
+        blocks = np.array([unpack(x, 8) for x in base['blocks']], dtype='uint8')
+        idx = run_index(case['runs'])
+        fn = B.decrypt if base['dec'] else B.encrypt
+        kw = stop_kwargs(B, base['stops'][0], base.get('argform', 'int'))
+        ksmall = np.ascontiguousarray(keys if shape in (2, 3) else keys[0])
+        bsmall = np.ascontiguousarray(blocks if shape in (1, 3) else blocks[0])
+        kbig = np.ascontiguousarray(keys[idx] if shape in (2, 3) else keys[0])
+        bbig = np.ascontiguousarray(blocks[idx] if shape in (1, 3) else blocks[0])
+        k0, b0 = kbig.copy(), bbig.copy()
+        snap = _snapshot_state(B)
+        try:
+            small = fn(bsmall, ksmall, **kw)
+            big = fn(bbig, kbig, **kw)
+            changed = _changed_state(snap)
+        finally:
+            _restore_state(snap)
+        for what, out in (('small', small), ('big', big)):
+            if not isinstance(out, np.ndarray) or out.dtype != np.uint8 or out.ndim != 2 or out.shape[1] != 8:
+                return {'raised': 'BadResult', 'msg': f'{what} call: {type(out).__name__} dtype {getattr(out, "dtype", None)} shape {getattr(out, "shape", None)}'}
+        obs = {'small_shape': [int(v) for v in small.shape], 'small': [pack(x) for x in small.tolist()],
+               'shape': [int(v) for v in big.shape], 'unchanged': bool(np.array_equal(kbig, k0) and np.array_equal(bbig, b0)),
+               'state_changed': changed}
+        bad = None
+        if big.shape[0] == len(idx) and small.shape[0] == len(base['keys' if shape in (2, 3) else 'blocks']):
+            diff = np.nonzero((big != small[idx]).any(axis=1))[0]
+            if len(diff):
+                bad = int(diff[0])
+                obs['n_bad'] = int(len(diff))
+        obs['first_bad'] = bad
+        obs['rows'] = [[i, pack(big[i].tolist())] for i in export_rows(case['runs'], case['sample'], bad) if i < big.shape[0]]
+        return obs
+
+    def coq(self, case, obs):
+        base = case['base']
+        lit = cipher_literal(base['dec'], base['form'], base['shape'] in (2, 3), base['keys'], base['shape'] in (1, 3), base['blocks'],
+                             base['stops'], [obs['small_shape']] if 'small' in obs else [], [obs['small']] if 'small' in obs else [])
+        return '{| cn_base := %s; cn_runs := %s; cn_shape := %s; cn_rows := %s |}' % (
+            lit, C.coq_list(case['runs'], lambda r: f'({r[0]}%nat, {C.coq_n(r[1])})'), C.coq_list(obs.get('shape', []), C.coq_n),
+            C.coq_list(obs.get('rows', []), lambda r: f'({C.coq_n(r[0])}, {C.coq_n(r[1])})'))
+
+    def oracle(self, case, obs):
+        if 'raised' in obs:
+            return f'{"decrypt" if case["base"]["dec"] else "encrypt"} raised {obs["raised"]}: {obs["msg"]}'
+        if obs['first_bad'] is not None:
+            return (f'row {obs["first_bad"]} of the {obs["shape"][0]}-row result (and {obs["n_bad"] - 1} more) differs from the result '
+                    f'of the same (key, block) pair in a call on the distinct pairs only')
+        if not obs['unchanged']:
+            return 'the caller\'s key or block array was modified'
+        if obs['state_changed']:
+            return f'the call modified {obs["state_changed"]}'
+        return None
+
+    def tags(self, case, obs):
+        return ['des_counts', f'des_counts_{case["base"]["form"]}']
+
+    def features(self, case, obs):
+        b = case['base']
+        return {'rows': sum(n for _, n in case['runs']), 'form': b['form'], 'shape': SHAPES[b['shape']], 'argform': b.get('argform', 'int')}
+
+    def sample(self, case, obs):
+        return {'case': dict(case, sample=case['sample'][:5]), 'observed': dict(obs, rows=obs.get('rows', [])[:5])}
+
+    def shrink(self, case):
+        runs = case['runs']
+        total = sum(n for _, n in runs)
+        for target in (70000, 65537, 65536, 4097, 1025, 1024, 257, 256, 64, 17, 5):
+            if target < total:                   # the same pattern of runs on fewer rows
+                scaled = [[i, max(1, n * target // total)] for i, n in runs]
+                scaled[0][1] += target - sum(n for _, n in scaled) if target > sum(n for _, n in scaled) else 0
+                yield dict(case, runs=scaled, sample=[i for i in case['sample'] if i < sum(n for _, n in scaled)])
+        base = case['base']
+        if any(v is not None for v in base['stops'][0]):
+            yield dict(case, base=dict(base, stops=[[None, None, None]]))
+
+
+class PrimCountKind(Kind):
+    name = 'des_primitive_counts'
+    header = HDR
+    case_type = 'prim_count_case'
+    check_fn = 'prim_count_check'
+    shard = 4
+    rule = ('count boundaries of the public primitives and key_schedule: one call on 255/256/257, 1023/1024/1025, 4097 rows made of 2..4 '
+            'distinct rows (run-length encoded, expanded inside Coq); Coq sees the first / last occurrence of every distinct row, the last '
+            'three rows and a sample; the Python side compares the whole result with the per-row results by exact equality; non-trivial = always')
+
+    def gen(self, rng, tier):
+        reps = 1 if tier == 'quick' else 3
+        k = 0
+        for rep in range(reps):
+            for name, (_, nin, top) in PRIMS.items():
+                for j in range(4):
+                    total = COUNTS_SMALL[(k + rep) % len(COUNTS_SMALL)]
+                    d = 2 + k % 3
+                    rows = [pack(_bytes(rng, nin, top)) for _ in range(d)]
+                    yield {'prim': name, 'rows': rows, 'runs': make_runs(rng, total, d), 'sample': sorted(rng.sample(range(total), 12 if name == 'key_schedule' else 40))}
+                    k += 1
+
+    def run(self, case):
+        import scared.des.base as B
+        name = case['prim']
+        nin = PRIMS[name][1]
+        small_in = np.array([unpack(x, nin) for x in case['rows']], dtype='uint8')
+        idx = run_index(case['runs'])
+        big_in = np.ascontiguousarray(small_in[idx])
+        before = big_in.copy()
+        f = getattr(B, name)
+        small, big = f(small_in), f(big_in)
+        width = 128 if name == 'key_schedule' else (4 if name == 'permutation_p' else 8)
+        for what, out in (('small', small), ('big', big)):
+            if not isinstance(out, np.ndarray) or out.dtype != np.uint8 or out.ndim < 2 or out.size % width != 0:
+                return {'raised': 'BadResult', 'msg': f'{what} call: {type(out).__name__} dtype {getattr(out, "dtype", None)} shape {getattr(out, "shape", None)}'}
+        small2, big2 = rows2d(small, width), rows2d(big, width)
+        obs = {'shape': [int(v) for v in big.shape], 'total': int(big.shape[0]), 'unchanged': bool((big_in == before).all())}
+        bad = None
+        if big2.shape[0] == len(idx) and small2.shape[0] == len(case['rows']):
+            diff = np.nonzero((big2 != small2[idx]).any(axis=1))[0]
+            if len(diff):
+                bad = int(diff[0])
+                obs['n_bad'] = int(len(diff))
+        obs['first_bad'] = bad
+        obs['rows'] = [[i, limbs(big2[i].tolist())] for i in export_rows(case['runs'], case['sample'], bad) if i < big2.shape[0]]
+        return obs
+
+    def coq(self, case, obs):
+        return '{| pn_prim := %s; pn_in := %s; pn_runs := %s; pn_total := %s; pn_rows := %s |}' % (
+            PRIMS[case['prim']][0], C.coq_list(case['rows'], C.coq_n),
+            C.coq_list(case['runs'], lambda r: f'({r[0]}%nat, {C.coq_n(r[1])})'), C.coq_n(obs.get('total', 0)),
+            C.coq_list(obs.get('rows', []), lambda r: f'({C.coq_n(r[0])}, {C.coq_list(r[1], C.coq_n)})'))
+
+    def oracle(self, case, obs):
+        if 'raised' in obs:
+            return f'{case["prim"]} raised {obs["raised"]}: {obs["msg"]}'
+        if obs['first_bad'] is not None:
+            return (f'row {obs["first_bad"]} of the {obs["total"]}-row result of {case["prim"]} (and {obs["n_bad"] - 1} more) differs from the '
+                    f'result for the same input row in a call on the distinct rows only')
+        if not obs['unchanged']:
+            return f'{case["prim"]} modified its input array'
+        return None
+
+    def tags(self, case, obs):
+        return ['des_primitive_counts', 'des_counts_' + case['prim']]
+
+    def features(self, case, obs):
+        return {'prim': case['prim'], 'rows': sum(n for _, n in case['runs'])}
+
+    def sample(self, case, obs):
+        return {'case': dict(case, sample=case['sample'][:5]), 'observed': dict(obs, rows=obs.get('rows', [])[:3])}
+
+
+KINDS = [SweepKind(), PrimKind(), CipherKind(), HistoryKind(), CountKind(), PrimCountKind()]
 
 
 def coverage_extra():
